@@ -349,12 +349,16 @@ def build_alignment(cspec, aspec, continuum=None, soft=False, slot_order=None, c
     from pyannote.core import Segment
     uas = []
     for tup in aspec:
-        names = list(tup.keys())
-        if slot_order is not None:
-            names = [n for n in slot_order if n in tup]
+        if isinstance(tup, list):
+            # explicit list of [annotator, value] slots: an annotator may be named twice, another not at all
+            pairs = [(a, i) for a, i in tup]
+        else:
+            names = list(tup.keys())
+            if slot_order is not None:
+                names = [n for n in slot_order if n in tup]
+            pairs = [(a, tup[a]) for a in names]
         n_tuple = []
-        for a in names:
-            i = tup[a]
+        for a, i in pairs:
             if i is None:
                 n_tuple.append((a, None))
             elif isinstance(i, (list, tuple)):   # explicit foreign unit [s, e, label]
